@@ -369,3 +369,41 @@ register('C18', 'proof',
                       'namespecs given to load_program_rules are those of real processes (non-empty process name)',
                       'dicts keyed by str never hold the key None'],
          extra='pyvc.structural_c18')
+register('C14', 'proof',
+         'Proved for all inputs on the real source of strategy.py: the validity predicate (node load + node requests + load '
+         '<= 100), the loading/validity map (domain = candidates, order of first occurrence, values), the six strategies '
+         '(CONFIG = first valid candidate in list order; LESS/MOST_LOADED = valid and lexicographically minimal/maximal on '
+         '(instance load + requests, node load); *_NODE on (node load, instance load); LOCAL = the local identifier iff '
+         'candidate and valid; None iff no valid candidate), the total dispatch of create_strategy, the module-level '
+         'get_supvisors_instance (RUNNING filter + per-strategy optimality over the abstract loads) and get_node.',
+         not_decided=['the sums themselves: get_load(), get_nodes_load() and get_node_load_request_map() are abstracted by '
+                      'ghost quantities L(i), NL(m), NR(m) (assumed contracts GetLoad, GetNodesLoad, GetNodeLoadRequestMap)',
+                      'distribute_to_single_instance / distribute_to_single_node / on_command_added (DESIGN C14.4, '
+                      'Appendix A23) are not under contract yet',
+                      'ties beyond the documented keys (the statement leaves them open)'],
+         assumptions=['every instance seen RUNNING has been identified and is filed under its machine in mapper.nodes '
+                      '(handshake; precondition placement_pre)',
+                      'mapper.nodes lists are duplicate-free (precondition of get_nodes_load; its preservation by '
+                      'SupvisorsMapper.identify is a C04 obligation, refuted: finding C04-identify-files-twice)',
+                      'Supvisors object graph shape: mapper.supvisors and context.supvisors point back to the root',
+                      'ints are mathematical; dict iteration order = insertion order'])
+register('C04', 'proof',
+         'Per emission: single emission site (AST scan); is_loading_valid <=> node load + node requests + load <= 100; '
+         'get_supvisors_instance returns None or a RUNNING candidate whose node keeps spare load, None iff nobody qualifies '
+         '(contracts/c14.py); ProcessStatus.possible_identifiers = permitted by the rule and known and enabled; '
+         'ApplicationStartJobs.process_job: nothing sent unless the process is stopped, at most one request, target '
+         'RUNNING / knows the program / enabled / permitted, FATAL "No resource available" otherwise; mapper.nodes has a '
+         'single writer whose preservation of the duplicate-free invariant is an obligation.',
+         not_decided=['the sums (instance load, node load, pending requests per machine) are ghost quantities, see C14',
+                      'SupvisorsMapper.filter is assumed (string-level resolution of identifiers / nicks / stereotypes)',
+                      'ApplicationStatus.possible_identifiers / possible_node_identifiers (set intersections inside loops) are '
+                      'not under contract yet',
+                      'the cap clause with ALL pending requests is decided by a structural obligation (the semantic clause is '
+                      'refuted by z3 only on some paths within the budget)',
+                      '"already being started by the same instance is not requested again" (add_commands de-duplication)'],
+         assumptions=['transport: RpcHandler.send_start_process only queues the request (effect log)',
+                      'ApplicationJobs.fail_command forces the state through the listener (assumed, no frame)',
+                      'get_load_requests returns the pending requests of this application job; its keys are identified '
+                      'instances; per machine it is at most AllPending',
+                      'payload record shapes (REC_KEYS)', 'expected_load in [0,100] (C18)'],
+         extra='pyvc.structural_c04')
